@@ -252,9 +252,14 @@ class Driver(object):
         self._scan()
 
     def _wait_parked(self):
+        import time as _time
+        t0 = _time.time()
         with self.ev.cv:
             while not self.ev.parked and self.thread.is_alive():
                 self.ev.cv.wait(0.005)
+                if _time.time() - t0 > 30:
+                    self.errors.append('Controller.run did not reach its wait within 30 s after the stage start')
+                    raise RuntimeError('controller loop stuck')
         if not self.thread.is_alive():
             self.thread.join()
 
@@ -266,7 +271,9 @@ class Driver(object):
             self.ev.cv.notify_all()
         import time as _t
         _t.sleep(0)  # real time.sleep may be patched inside control only
-        # wait until parked again or finished
+        # wait until parked again or finished (bounded: a controller that never returns to its wait is reported)
+        import time as _time
+        t0 = _time.time()
         while True:
             with self.ev.cv:
                 if self.ev.parked and not self.ev.go:
@@ -274,6 +281,10 @@ class Driver(object):
             if not self.thread.is_alive():
                 self.thread.join()
                 break
+            if _time.time() - t0 > 30:
+                self.errors.append('Controller.run did not return to its wait within 30 s after a Tick')
+                raise RuntimeError('controller loop stuck')
+            _time.sleep(0.0005)
         self._scan()
 
     def stage_running(self):
